@@ -5,7 +5,8 @@ Driver of C04 (and the case parser shared with C05). Case line:
 `(g (roots r…) (via k) (n <oid> <Class> <plain|alt|sub> "<scalars>" <MappingClass|-> "<mapping columns>" (tabs T…) <ref>…) …)`
 with `<ref>` = `(none)` | `(one t)` | `(many <assoc table> t…)` | `(none! <column>)` | `(one! <column> t)` (`!` = the
 field references the source's own table hierarchy) | `(extra <table> n)` (rows of mapped sub-objects the object's
-`create_instance` builds on the fly). Nodes are listed in oid order 0,1,2,….
+`create_instance` builds on the fly) | `(pf a b)` (kind `sub`: a leading scalars and b leading references come from the
+rebuilt parent). Unknown top-level items such as `(tries n)` are for the harness only. Nodes are listed in oid order 0,1,2,….
 -/
 namespace KrroodVerif.Drive.C04
 open KrroodVerif.Dao
@@ -35,9 +36,15 @@ def parseNode : List Sexp → Option (Nat × Node)
     let extra ← (refs.filter isExtra).mapM fun x => match x with
       | .list [.atom "extra", .atom t, n] => n.asNat?.map fun n => (t, n)
       | _ => none
-    let rs ← (refs.filter fun x => !isExtra x).mapM parseRef
+    let isPf : Sexp → Bool := fun x => match x with | .list (.atom "pf" :: _) => true | _ => false
+    let pf := ((refs.filter isPf).filterMap fun x => match x with
+      | .list [.atom "pf", a, b] => match a.asNat?, b.asNat? with
+        | some a, some b => some (a, b)
+        | _, _ => none
+      | _ => none).headD (0, 0)
+    let rs ← (refs.filter fun x => !isExtra x && !isPf x).mapM parseRef
     pure (oid, { lab := ⟨cls, scal⟩, kind := kind, view := ⟨mcls, mscal⟩, tabs := tabs,
-                 fields := rs.map (·.2), refs := rs.map (·.1), extra := extra })
+                 fields := rs.map (·.2), refs := rs.map (·.1), extra := extra, pf := pf })
   | _ => none
 
 def parseCase : Sexp → Option Case
@@ -73,6 +80,13 @@ def run (s : Sexp) : String :=
     let m := showResult (roundTrip true unmap c.heap roots)
     let mf := showResult (roundTrip false unmap c.heap roots)
     let spec := canon c.heap roots
-    let trig := if trigStale unmap c.heap roots then "F-C04-1" else ""
-    s!"model={m}\tmodel_fixed={mf}\tspec={spec}\ttrig={trig}"
+    -- F-C04-2: every admissible outcome of temporary-parent id collisions (nondeterministic at run time)
+    let (stales, trig2) := match roundTrip true unmap c.heap roots with
+      | some (rs, st) =>
+        let cs := (staleChoices st.out [] (subSlots st.out)).filter (fun (ch : List (Nat × Nat)) => !ch.isEmpty)
+        (dedupStrings ((cs.take 64).map fun (ch : List (Nat × Nat)) => canon (staleParent st.out ch) rs), trigStaleParent st.out)
+      | none => ([], false)
+    let trig := (if trigStale unmap c.heap roots then ["F-C04-1"] else []) ++ (if trig2 then ["F-C04-2"] else [])
+    let alts := "".intercalate (stales.zipIdx.map fun (p : String × Nat) => s!"\tmodel_s{p.2 + 1}={p.1}")
+    s!"model={m}\tmodel_fixed={mf}{alts}\tspec={spec}\ttrig={",".intercalate trig}"
 end KrroodVerif.Drive.C04
